@@ -1,5 +1,8 @@
 use crate::data::{table::*, validated_file::*, DollarlessTerminalName, RustSrc};
+#[cfg(not(kiki_verif))]
 use std::collections::{HashMap, HashSet};
+#[cfg(kiki_verif)]
+use crate::verif_collections::{HashMap, HashSet};
 
 const STATE_VARIANT_PREFIX: &str = "S";
 const RULE_KIND_VARIANT_PREFIX: &str = "R";
